@@ -255,6 +255,9 @@ def run_uncached(repo, gen_dir, seed, rlimit, threads, verbose):
         res['status'] = 'verus-error'
     if any(f['class'] == 'unsupported' for f in failures):
         res['status'] = 'unsupported'
+    # rustc / lowering errors stop Verus before any proof obligation is generated: then NOTHING was verified on this tree
+    if not vr.get('success') and not vr.get('verified') and not fnres:
+        res['nothing_verified'] = True
     res['wall_s'] = time.time() - t0
     return res
 
